@@ -7,6 +7,7 @@ reported length by every evaluation entry point.
 """
 import itertools
 
+import copy
 import numpy as np
 import pandas as pd
 import pints
@@ -61,6 +62,40 @@ def _bad(ctx, what, detail, feats):
     ctx.violation('counts_names_lengths_agree', what, detail, feats)
 
 
+_READERS = ['get_special_dims', 'n_parameters', 'get_parameter_names',
+            'n_hierarchical_dim', 'get_dim_names', 'n_dim', 'n_covariates',
+            'get_covariate_names', 'n_hierarchical_parameters']
+
+
+def _reads_order_free(ctx, m, n_ids, feats, what):
+    """what a read-only accessor reports straight after a reconfiguration
+    equals what it reports once the other accessors have been called (a
+    count or table cached by one accessor and refreshed by another shows as
+    a difference); each accessor is read first on its own copy of the model"""
+    order = _READERS
+
+    def read(obj, a):
+        f = getattr(obj, a)
+        return repr(f(n_ids) if a == 'n_hierarchical_parameters' else f())
+    try:
+        # every accessor is the FIRST one called on its own copy
+        first = dict((a, read(copy.deepcopy(m), a)) for a in order)
+        for a in order:
+            read(m, a)
+        second = dict((a, read(m, a)) for a in order)
+    except Exception as e:      # noqa
+        ctx.violation_exc('accessor_raises', e, {'what': what}, feats)
+        return False
+    ctx.count('accessor_order_passes')
+    diff = [(a, first[a], second[a]) for a in order if first[a] != second[a]]
+    if diff:
+        _bad(ctx, 'accessor_depends_on_call_order',
+             {'what': what, 'first_read_order': order,
+              'accessor, first read, read again': diff[:3]}, feats)
+        return False
+    return True
+
+
 # ------------------------------------------------------- population models
 class PopState(object):
     """chi population model + the Leaf description that mirrors it"""
@@ -104,6 +139,8 @@ def check_pop(ctx, st, rng, feats):
     m = st.model
     h = Hierarchy(st.leaves, st.n_ids)
     n_free = h.n_top - len(st.fixed)
+    if not _reads_order_free(ctx, m, st.n_ids, feats, st.ops[-3:]):
+        return False
     ctx.count('invariant_evaluations')
     names = m.get_parameter_names()
     names2 = m.get_parameter_names(exclude_dim_names=True)
@@ -402,6 +439,8 @@ def pop_exhaustive_case(ctx, rng, idx):
 def _counts_agree(ctx, m, n_ids, feats, what):
     """n_parameters == names == hierarchical top count; gradients of the
     reported lengths; returns False after reporting a problem"""
+    if not _reads_order_free(ctx, m, n_ids, feats, what):
+        return False
     names = m.get_parameter_names()
     n = m.n_parameters()
     n_b, n_t = m.n_hierarchical_parameters(n_ids)
